@@ -228,6 +228,10 @@ detail::TypedArgBase*
    subGroup.setIsSubGroupHandler();
 
    const detail::ArgumentKey  key( arg_spec);
+
+   // within one handler a key designates one argument, of whichever kind
+   mArguments.checkKeyFree( key);
+
    auto  arg_hdl = new detail::TypedArgSubGroup( key, subGroup);
 
    arg_hdl->setKey( key);
@@ -1367,6 +1371,11 @@ detail::TypedArgBase* Handler::internAddArgument( detail::TypedArgBase* ah_obj,
                                                   const detail::ArgumentKey& key,
                                                   const string& desc)
 {
+
+   // within one handler a key designates one argument, of whichever kind
+   std::unique_ptr< detail::TypedArgBase>  guard( ah_obj);
+   mSubGroupArgs.checkKeyFree( key);
+   guard.release();
 
    ah_obj->setKey( key);
    ah_obj->setConstraintsContainer( &mConstraints);
